@@ -41,11 +41,21 @@
 //     self-signed and issuer name == subject name.
 //   - the statement says "exactly the certificates of those files", not their order: the
 //     set (multiset of raw certificates) is judged, the order is only recorded.
-//   - "It then returns exactly the certificates of those files": a store that meets every
-//     condition must load; the refusal of a hand-labelled valid store is reported under its
-//     own key family (load/refused-valid-store:...), these cases are the positive controls.
+//   - the statement is an implication ("succeeds only ... only if"): a loader that refuses a
+//     store meeting every condition (stricter grammar, further certificate checks) does not
+//     break it. Such refusals are RECORDED (outcome class recorded:load/refused-valid-store:...),
+//     never reported; the valid stores are the positive controls (at least one must load).
+//   - store names with a blank, a backslash, a newline or a star are outside the statement's
+//     quantifier (plain, dotted, with separators, dot-only, empty) and are legal single file
+//     names on this platform: whether they are "plain" is not decided by the statement. Either
+//     outcome is accepted; a successful load must return exactly the files of the directory of
+//     exactly that name (not those of a store with a similar name).
+//   - "fails as a whole rather than returning a partial set": an error together with a
+//     non-empty certificate list is reported; nil versus empty list is only recorded.
 //   - "those files" are the files at the time of the call: a later call on the same object
-//     is judged like a first call.
+//     is judged like a first call. Every in-place change is run twice: with the modification
+//     times moved forward (visible to stat) and with them put back (only the content differs);
+//     the two have different key suffixes.
 //   - a panic of the loader is reported as an infrastructure error, not as a violation.
 package main
 
@@ -201,6 +211,9 @@ var storeNames = []labelled{
 }
 
 const quickNames = 10
+
+// names the statement does not classify (see header); never iterated, only looked up
+var openNames = map[string]bool{"a b": true, "a\\b": true, "s\n": true, "s*": true, "s ": true}
 
 var pathKinds = []string{"missing", "directory", "symlink-to-directory", "regular-file"}
 
@@ -385,8 +398,11 @@ type loadCase struct {
 	Prior int `json:"prior,omitempty"`
 	// AliasContent: "" = every alias store holds one root; "root+intermediate" = a root and a non-root CA.
 	AliasContent string `json:"alias_content,omitempty"`
-	// Then: the store is changed in place (modification times put back) and loaded again by the same object.
+	// Then: the store is changed in place and loaded again by the same object.
 	Then []step `json:"then,omitempty"`
+	// Mtimes: "" = the modification times of the directory and of overwritten files are put back after the
+	// change (only the content differs); "moved" = they are set two seconds later (the change is visible to stat).
+	Mtimes string `json:"mtimes,omitempty"`
 }
 
 func (c loadCase) String() string {
@@ -397,10 +413,15 @@ func (c loadCase) String() string {
 	for _, t := range c.Then {
 		s += fmt.Sprintf("|then path=%s entries=%s", t.Path, strings.Join(t.Entries, ","))
 	}
+	if c.Mtimes != "" {
+		s += "|mtimes=" + c.Mtimes
+	}
 	return s
 }
 
-var goodContent = []string{"pem-ca", "der-ca"}
+// the most ordinary content (two PEM root CAs): the positive controls of the paths part must not depend
+// on anything a stricter but still correct loader might refuse
+var goodContent = []string{"pem-ca", "pem-ca"}
 
 func sequences(n, maxLen int) [][]int {
 	out := [][]int{{}}
@@ -618,7 +639,7 @@ func isRegularKind(k int) bool { return k >= 0 && mats[k][0].file != nil }
 // Directory -> directory is done IN PLACE: only the positions that differ are touched, a regular file
 // that becomes another regular file is overwritten (same inode), and the modification times of the
 // directory and of overwritten files are put back, so that nothing but the content differs.
-func applyStep(root, storePath, prevPath string, prev []int, nextPath string, next []int) error {
+func applyStep(root, storePath, prevPath string, prev []int, nextPath string, next []int, moved bool) error {
 	if prevPath != "directory" || nextPath != "directory" {
 		if err := os.RemoveAll(storePath); err != nil { // a symlink is removed, not followed
 			return err
@@ -642,6 +663,11 @@ func applyStep(root, storePath, prevPath string, prev []int, nextPath string, ne
 		}
 		return hole
 	}
+	shift := time.Duration(0)
+	if moved {
+		shift = 2 * time.Second
+	}
+	dirTouched := false
 	for pos := 0; pos < n; pos++ {
 		pk, nk := at(prev, pos), at(next, pos)
 		if pk == nk {
@@ -656,11 +682,12 @@ func applyStep(root, storePath, prevPath string, prev []int, nextPath string, ne
 			if err := os.WriteFile(p, mats[nk][pos].file, 0o644); err != nil {
 				return err
 			}
-			if err := os.Chtimes(p, fi.ModTime(), fi.ModTime()); err != nil {
+			if err := os.Chtimes(p, fi.ModTime().Add(shift), fi.ModTime().Add(shift)); err != nil {
 				return err
 			}
 			continue
 		}
+		dirTouched = true
 		if pk != hole {
 			if err := os.RemoveAll(p); err != nil {
 				return err
@@ -672,7 +699,12 @@ func applyStep(root, storePath, prevPath string, prev []int, nextPath string, ne
 			}
 		}
 	}
-	return os.Chtimes(storePath, di.ModTime(), di.ModTime())
+	// overwriting a file does not touch the directory; creating / removing an entry does
+	dm := di.ModTime()
+	if dirTouched {
+		dm = dm.Add(shift)
+	}
+	return os.Chtimes(storePath, dm, dm)
 }
 
 // ---------------------------------------------------------------- reference loader (over the description)
@@ -729,7 +761,7 @@ func reference(c loadCase, pathKind string, entries []int) (expectation, error) 
 	switch {
 	case !t.Valid:
 		e.Outcome, e.Reason = "refuse", "invalid-type"
-	case !n.Valid:
+	case !n.Valid && !openNames[c.Name]:
 		e.Outcome, e.Reason = "refuse", "invalid-name"
 	case pathKind != "directory":
 		e.Outcome, e.Reason = "refuse", "store-path-"+pathKind
@@ -741,6 +773,9 @@ func reference(c loadCase, pathKind string, entries []int) (expectation, error) 
 		e.Outcome, e.Reason = "open", "tsa-self-signed-non-ca(unclassified)"
 	default:
 		e.Outcome, e.Reason = "load", "valid"
+	}
+	if openNames[c.Name] && e.Outcome == "load" {
+		e.Outcome, e.Reason = "open", "name-not-classified-by-statement"
 	}
 	return e, nil
 }
@@ -755,6 +790,7 @@ type result struct {
 	nontrivial bool
 	orderDiff  bool
 	findings   []finding
+	recorded   []string // observations the statement does not demand (evidence only)
 	infra      string
 	detail     string
 }
@@ -815,21 +851,21 @@ type judged struct {
 }
 
 // judge compares one real load with the reference for the state (pathKind, entryNames) of case c.
-func judge(c loadCase, pathKind string, entryNames []string, exp expectation, certs []*x509.Certificate, lerr error, placed []bool, add func(key, format string, a ...any)) (j judged) {
+func judge(c loadCase, pathKind string, entryNames []string, exp expectation, certs []*x509.Certificate, lerr error, placed []bool, add func(key, format string, a ...any), record func(class string)) (j judged) {
 	tl, _ := lookup(storeTypes, c.Type)
 	nl, _ := lookup(storeNames, c.Name)
 	if lerr != nil {
 		j.detail = fmt.Sprintf("refused (%s): %v", errClass(lerr), lerr)
-		if certs != nil {
+		if len(certs) > 0 {
 			add("load/certificates-returned-with-error", "%d certificates returned together with error %v", len(certs), lerr)
+		} else if certs != nil {
+			record("recorded:load/empty-non-nil-list-returned-with-error")
 		}
 		switch exp.Outcome {
 		case "load":
-			label := nl.Label
-			if c.Part != "paths" {
-				label = uniqueKinds(entryNames)
-			}
-			add("load/refused-valid-store:"+tl.Label+":"+label, "a valid store was refused: %v", lerr)
+			// not demanded by the statement (implication): evidence only
+			record("recorded:load/refused-valid-store:" + tl.Label)
+			j.class = "refused-although-valid(recorded)"
 		case "open":
 			j.class = "refused:" + exp.Reason
 		default:
@@ -968,7 +1004,7 @@ func runCase(scratch string, idx int, c loadCase) (res result) {
 	var outcomes, details []string
 	for si, st := range steps {
 		if si > 0 {
-			if err := applyStep(root, storePath, steps[si-1].Path, ents[si-1], st.Path, ents[si]); err != nil {
+			if err := applyStep(root, storePath, steps[si-1].Path, ents[si-1], st.Path, ents[si], c.Mtimes == "moved"); err != nil {
 				res.infra = fmt.Sprintf("cannot change %s (step %d): %v", c, si, err)
 				return
 			}
@@ -978,7 +1014,9 @@ func runCase(scratch string, idx int, c loadCase) (res result) {
 			if c.Prior == 1 {
 				key += ":after-other-loads-on-same-trust-store"
 			}
-			if si > 0 {
+			if si > 0 && c.Part == "history" && c.Mtimes != "moved" {
+				key += ":reload-after-stat-invisible-change-on-same-trust-store"
+			} else if si > 0 {
 				key += ":reload-after-change-on-same-trust-store"
 			}
 			what := fmt.Sprintf(format, a...)
@@ -987,7 +1025,7 @@ func runCase(scratch string, idx int, c loadCase) (res result) {
 			}
 			res.findings = append(res.findings, finding{key, what + " [" + c.String() + "]"})
 		}
-		j := judge(c, st.Path, st.Entries, exps[si], certs, lerr, placed, add)
+		j := judge(c, st.Path, st.Entries, exps[si], certs, lerr, placed, add, func(class string) { res.recorded = append(res.recorded, class) })
 		details = append(details, j.detail)
 		if j.loaded {
 			outcomes = append(outcomes, "loaded")
@@ -1039,7 +1077,7 @@ func main() {
 	r := hx.New("C13")
 	r.Rule = "part entries: every ordered sequence (= multiset x file-name ordering) of <= N entry kinds x {ca, signingAuthority, tsa} in store \"s\"; " +
 		"part paths: every type x name x object-at-store-path x alias-store content with a fixed good content; both on a fresh trust-store object and on one that loaded other stores before; " +
-		"part history: every content of <= M entries x every single in-place edit (replace by every other kind / remove / add, modification times put back) x 3 types, all loads on ONE object; " +
+		"part history: every content of <= M entries x every single in-place edit (replace by every other kind / remove / add) x {modification times moved, put back} x 3 types, all loads on ONE object; " +
 		"part path-history: every ordered pair of objects at the store path. Each case has its own scratch root with four decoys and the alias stores. " +
 		"non-trivial = loads of >= 2 certificates, refusals of a store holding a loadable entry next to a bad one, refusals where an object with good content exists at the store path, histories whose first load succeeds"
 	r.Assumptions = []string{
@@ -1048,8 +1086,10 @@ func main() {
 		"'...' is a plain file name (ordinary directory entry); a self-signed non-CA certificate in a tsa store is not classified by the statement (either outcome accepted, exact set still demanded)",
 		"self-signed = signature verifies under the certificate's own key; root = self-signed and issuer name == subject name",
 		"the returned certificates are judged as a multiset of raw encodings; file-name order is recorded, not demanded",
-		"a store meeting every stated condition must load (positive controls; refusal = load/refused-valid-store:...)",
-		"a later load on the same trust-store object is judged like a first load against the files on disk at that moment (in-place changes keep the directory's and the file's modification time, as cp -p / rsync -t / tar do)",
+		"the statement is an implication: the refusal of a store meeting every stated condition is recorded (recorded:load/refused-valid-store:<type>), not reported; at least one positive control per part must load",
+		"store names with blank / backslash / newline / star are not classified by the statement: either outcome accepted, on success exactly the files of the directory of that very name",
+		"an error together with a NON-EMPTY certificate list is a partial set; nil versus empty list with an error is only recorded",
+		"a later load on the same trust-store object is judged like a first load against the files on disk at that moment (every in-place change once with modification times moved forward and once with them put back, as cp -p / rsync -t / tar or a change within the timestamp granularity do; distinct key suffixes)",
 		"entry alphabet = DESIGN's twelve kinds + two multi-certificate files whose second certificate is the bad one + four collision kinds (self-issued but foreign signature, own-key signature but foreign issuer name, corrupted signature)",
 		"we run as root: permission faults (unreadable file/directory) are not produced",
 		"a panic of the loader is an infrastructure error",
@@ -1132,11 +1172,30 @@ func main() {
 				if r.Thorough() {
 					c.Then = append(c.Then, step{"directory", kindNames(a)})
 				}
+				// whatever is fooled by a change that stat can see is also fooled by one it cannot see: the "moved"
+				// variant only tells the two apart (key suffix); quick runs it for contents of <= 1 entry
+				if r.Thorough() || len(a) <= 1 {
+					c.Mtimes = "moved"
+					cases = append(cases, c)
+				}
+				c.Mtimes = ""
 				cases = append(cases, c)
 			}
 		}
 	}
 	nHist := len(cases) - nBase - nPathHist
+	// smallest stores first, across all parts: should the internal deadline strike on a busy machine,
+	// only the largest cases of every part are left out, never a whole part
+	weight := func(c loadCase) int {
+		w := len(c.Entries)
+		for _, t := range c.Then {
+			if len(t.Entries) > w {
+				w = len(t.Entries)
+			}
+		}
+		return w
+	}
+	sort.SliceStable(cases, func(a, b int) bool { return weight(cases[a]) < weight(cases[b]) })
 	r.Extra["entry_kinds"] = len(kinds)
 	r.Extra["max_entries_per_store"] = maxLen
 	r.Extra["entry_sequences"] = len(seqs)
@@ -1182,6 +1241,9 @@ func main() {
 		if res.class != "" {
 			r.Outcome(res.class)
 		}
+		for _, rc := range res.recorded {
+			r.Outcome(rc)
+		}
 		if res.nontrivial && len(res.findings) == 0 {
 			r.Nontrivial(c.String())
 		}
@@ -1212,13 +1274,14 @@ func main() {
 		r.Violation(h.f.key, h.f.what, cases[h.idx])
 	}
 	if n := skipped.Load(); n > 0 {
-		r.Capped(fmt.Sprintf("internal deadline: %d of %d cases evaluated (parts in order: entries, paths, the same on a reused object, path-history, history)", int64(len(cases))-n, len(cases)))
+		r.Capped(fmt.Sprintf("internal deadline: %d of %d cases evaluated (cases are ordered by the number of entries in the store, smallest first, across all parts)", int64(len(cases))-n, len(cases)))
 	}
 	r.Extra["positive_controls_loaded"] = loaded
 	r.Extra["positive_controls_loaded_paths_part"] = loadedP
 	r.Extra["positive_controls_loaded_history_part"] = loadedH
 	r.Extra["loads_not_in_file_name_order"] = orderDif
-	if len(hits) == 0 && (loaded == 0 || loadedP == 0 || loadedH == 0) {
+	// a run cut by the internal deadline may not have reached a part at all: that is a capped run, not a vacuous one
+	if len(hits) == 0 && skipped.Load() == 0 && (loaded == 0 || loadedP == 0 || loadedH == 0) {
 		r.Infra("no positive control loaded (all: %d, paths: %d, history: %d): the harness cannot tell a loader from a refuser", loaded, loadedP, loadedH)
 	}
 	r.Finish()
